@@ -79,8 +79,9 @@ class DftCase:
         if kind == "wakeseq":
             more = self.calls[1:]
             t = "wakeseq " + self._setup_text() + "%d\n" % len(more)
-            for profs in more:
-                t += " ".join(fhex(v) for pr in profs for v in pr) + "\n"
+            btw = getattr(self, "between", None) or ["W"] * len(self.calls)
+            for k, profs in enumerate(more):
+                t += btw[k + 1] + " " + " ".join(fhex(v) for pr in profs for v in pr) + "\n"
             return t
         if kind == "csrmb":
             pre = getattr(self, "pre", [])
@@ -88,7 +89,9 @@ class DftCase:
             for k, profs in pre:
                 t += "%s %s\n" % (k, " ".join(fhex(v) for pr in profs for v in pr))
             return t
-        return "csr " + self._setup_text() + fhex(self.cutoff) + "\n"
+        warm = getattr(self, "warm", None) or []
+        return "csr " + self._setup_text() + fhex(self.cutoff) + "\n%d\n" % len(warm) + \
+            "".join(" ".join(fhex(v) for pr in profs for v in pr) + "\n" for profs in warm)
 
     def bunch_case(self, b):
         """the single-bunch case 'bunch b alone' (what C07_multibunch_spectrum_row says row b is: the bunch at padded
@@ -149,12 +152,19 @@ class DftCase:
             d = self.replay("wake")
             d["kind"] = "wakeseq"
             d["calls"] = [[[fhex(v) for v in pr] for pr in profs] for profs in self.calls]
+            d["between"] = getattr(self, "between", None) or ["W"] * len(self.calls)
             return d
         if kind == "csrmb":
             d = self.replay("csr")
             d["kind"] = "csrmb"
             d["pre"] = [dict(op=k, prof=[[fhex(v) for v in pr] for pr in profs]) for k, profs in getattr(self, "pre", [])]
             return d
+        if kind == "csr" and getattr(self, "warm", None):
+            d = dict(self.replay("csr-"), kind="csr")
+            d["warm"] = [[[fhex(v) for v in pr] for pr in profs] for profs in self.warm]
+            return d
+        if kind == "csr-":
+            kind = "csr"
         return dict(kind=kind, id=self.cid, N=self.N, n=self.n, spacing=self.s, buckets=self.buckets,
                     note=self.note, axes={k: fhex(v) for k, v in self.axes.items()},
                     phys={k: fhex(v) for k, v in self.phys.items()}, cutoff=fhex(self.cutoff),
@@ -488,7 +498,12 @@ def gen_wakeseq_cases(ctx, count, sizes, prefix="s"):
         c = DftCase("%s%d" % (prefix, i), N, n, s, bks, zre, zim, calls[0], axes, phys,
                     note="%s[%s]/%s/%s" % (zk, band, " ; ".join(kinds), lk))
         c.calls = calls
+        # what else is called on the object between two wakePotential() calls: mostly nothing, sometimes updateCSR(0) or
+        # padBunchProfiles() with the new profiles (interleavings as such belong to C18; here only the wake is judged)
+        c.between = ["W"] + [rng.choice(["W", "W", "W", "C", "P"]) for _ in calls[1:]]
         cases.append(c)
+        for bt in c.between[1:]:
+            ctx.count("wakeseq:between-calls=" + {"W": "nothing", "C": "updateCSR", "P": "padBunchProfiles"}[bt])
         ctx.count("wakeseq:N=%d" % N)
         ctx.count("wakeseq:nb=%d" % len(bks))
         ctx.count("wakeseq:impedance=" + zk)
@@ -579,11 +594,15 @@ def gen_csr_cases(ctx, count, sizes, prefix="c"):
         pk = rng.choice(["random", "gauss", "impulse", "signed", "int"])
         prof = [_profile(rng, n, pk)]
         axes, phys = _axes_phys(rng)
-        c0 = DftCase("%s%da" % (prefix, i), N, n, s, [bk], zre, zim, prof, axes, phys, note="%s/%s" % (zk, pk))
-        c1 = DftCase("%s%db" % (prefix, i), N, n, s, [bk], zre, zim, prof, axes, phys, note="%s/%s" % (zk, pk),
+        c0 = DftCase("%s%da" % (prefix, i), N, n, s, [bk], zre, zim, prof, axes, phys, note="%s[%s]/%s" % (zk, band, pk))
+        c1 = DftCase("%s%db" % (prefix, i), N, n, s, [bk], zre, zim, prof, axes, phys, note="%s[%s]/%s" % (zk, band, pk),
                      cutoff=-1.0)          # filled in by the runner: needs the frequency axis
         c1.cut_frac = rng.uniform(0.15, 1.2)
         c0.passive = c1.passive = zk in ("passive", "smooth")
+        if rng.random() < 0.4:
+            # the object that gives the wake for Parseval has served 1-2 other profiles before
+            c0.warm = c1.warm = [[_profile(rng, n, rng.choice(["random", "signed", "int", "gauss"]))] for _ in range(rng.choice([1, 1, 2]))]
+            ctx.count("csr:wake-object-with-%d-earlier-calls" % len(c0.warm))
         cases.append((c0, c1))
         ctx.count("csr:N=%d" % N)
         ctx.count("csr:impedance=" + zk)
@@ -633,8 +652,8 @@ def gen_csrmb_cases(ctx, count, sizes, prefix="m"):
         pre = []
         for _ in range(rng.choice([0, 0, 1, 2, 3])):
             pre.append((rng.choice("WPC"), [_profile(rng, n, rng.choice(["random", "signed", "int"])) for _ in bks]))
-        c0 = DftCase("%s%da" % (prefix, i), N, n, s, bks, zre, zim, prof, axes, phys, note="%s/%s" % (zk, "+".join(pks)))
-        c1 = DftCase("%s%db" % (prefix, i), N, n, s, bks, zre, zim, prof, axes, phys, note="%s/%s" % (zk, "+".join(pks)), cutoff=-1.0)
+        c0 = DftCase("%s%da" % (prefix, i), N, n, s, bks, zre, zim, prof, axes, phys, note="%s[%s]/%s" % (zk, band, "+".join(pks)))
+        c1 = DftCase("%s%db" % (prefix, i), N, n, s, bks, zre, zim, prof, axes, phys, note="%s[%s]/%s" % (zk, band, "+".join(pks)), cutoff=-1.0)
         c1.cut_frac = rng.uniform(0.15, 1.2)
         c0.pre = c1.pre = pre
         c0.passive = c1.passive = zk in ("passive", "smooth")
@@ -669,10 +688,19 @@ def parse_impl(rec):
     return r
 
 
-def run_impl(ctx, text):
+def run_impl(ctx, text, cases=None, kind=None):
+    """cases/kind (optional): the case objects `text` was made of - when the harness dies, the first case that kills it
+    by itself is reported as a failing input (the implementation crashed on it) before the error is raised"""
     tg = ctx.build(harness=("impl_dft",))
     rc, out, err = run_driver(tg["impl_dft"], text, env=vp_build.xdg_env(), timeout=1800)
     if rc != 0:
+        for c in (cases or []):
+            rc1, _, err1 = run_driver(tg["impl_dft"], c.impl_text(kind), env=vp_build.xdg_env(), timeout=600)
+            if rc1 != 0:
+                ctx.violation("impl-oracle", "the implementation does not survive this input (harness exit status %d%s)"
+                              % (rc1, ": killed by signal %d" % -rc1 if rc1 < 0 else ""), case=c.replay(kind),
+                              observed=err1[-400:], sig=dict(kind=kind, clause="crash"))
+                break
         raise RuntimeError("impl_dft failed rc=%d: %s" % (rc, err[-2000:]))
     return {k: parse_impl(v) for k, v in parse_cases(out).items()}
 
